@@ -176,7 +176,7 @@ H['fsleaf'] = dict(
     variants={
         'quick': [_fs_variant(1, '')] + [_fs_variant(fn, t) for fn in (2, 3, 4, 5, 10) for t in ('', 'AAA')] + [_fs_variant(fn, 'AAAA') for fn in (6, 7, 8, 9)]
                  + [_fs_variant(12, 'AA'), _fs_variant(12, ''), _fs_variant(2, 'DDDDDDn'), _fs_variant(6, '115292150460DDDDDDDn'), _fs_variant(2, '115292150460DDDDDDDn'), _fs_variant(9, '9DDn')],   # (cgroup.events reader, H_FN 11: no verdict within the budget, not part of the claim)
-        'thorough': [_fs_variant(1, '')] + [_fs_variant(fn, t, 3000) for fn in range(2, 11) for t in ('', 'A', 'AA', 'AAA', 'AAAA', 'AAAAA', 'DDDDDDDDDn', '115292150460DDDDDDDn', '92233720368547DDDDDn')]
+        'thorough': [_fs_variant(1, '')] + [_fs_variant(fn, t, 3000) for fn in range(2, 11) for t in ('', 'A', 'AA', 'AAA', 'AAAA', 'AAAAA', 'DDDDDDDDDn', '115292150460DDDDDDDn', '92233720368547DDDDDn') if not (fn == 10 and len(t) > 12)]
                     + [_fs_variant(12, t, 3000) for t in ('', 'A', 'AA', 'AAA')],
     },
 )
@@ -210,12 +210,12 @@ H['kill'] = dict(
         ],
         'thorough': [
             dict(name='signal_unit_n3', defs={'H_NODES': 3, 'H_PAT': 0, 'H_NPIDS': 2, 'H_MODE': 4, 'VSTL_VEC_MAX': 20}, props=['C01', 'C17'], reach_optional=True),
-            dict(name='signal_unit_n5', defs={'H_NODES': 5, 'H_PAT': 0, 'H_NPIDS': 1, 'H_MODE': 4, 'VSTL_VEC_MAX': 20}, props=['C01', 'C17'], reach_optional=True, timeout=7200),
             dict(name='rank_unit', defs={'H_NODES': 5, 'H_PAT': 0, 'H_NPIDS': 1, 'H_MODE': 5}, props=['C03'], reach_optional=True),
             dict(name='xattr_unit', defs={'H_NODES': 2, 'H_PAT': 0, 'H_NPIDS': 1, 'H_MODE': 3}, props=['C17'], reach_optional=True),
         ],
         # further walk variants (not registered in a tier: no verdict within hours on this image; kept for larger machines)
         'extra': [
+            dict(name='signal_unit_n5', defs={'H_NODES': 5, 'H_PAT': 0, 'H_NPIDS': 1, 'H_MODE': 4, 'VSTL_VEC_MAX': 20}, props=['C01', 'C17'], reach_optional=True, timeout=20000),   # (victim with two child cgroups: >30 min, no verdict)
             dict(name='walk_min', loop_bounds=[RETRY(3)], defs={'H_NODES': 3, 'H_PAT': 1, 'H_NPIDS': 1, 'H_NO_KERNELKILL': 1, 'H_NO_REAP': 1}, props=['C01', 'C03', 'C17'], reach_optional=True, timeout=10800),
             dict(name='star_n3', loop_bounds=[RETRY(4)], defs={'H_NODES': 3, 'H_PAT': 1, 'H_NPIDS': 2, 'H_NO_KERNELKILL': 1}, props=['C01', 'C03', 'C17'], reach_optional=True, timeout=20000),
             dict(name='star_n3_pref', loop_bounds=[RETRY(4)], defs={'H_NODES': 3, 'H_PAT': 1, 'H_NPIDS': 2, 'H_NO_KERNELKILL': 1, 'H_CUR': '{0,2,1,0,0}', 'H_XA': '{0,4,1,0,0}'}, props=['C01', 'C03', 'C17'], reach_optional=True, timeout=20000),
